@@ -712,7 +712,9 @@ reprocess:
 	return (location);
 }
 
-#define MINI_FORMAT_STR_LEN 20
+#define MINI_FORMAT_STR_LEN 64
+/* room kept for "*.*" as two ints, a length modifier, the conversion and the NUL */
+#define MINI_FORMAT_FLAGS_MAX (MINI_FORMAT_STR_LEN - 32)
 
 size_t
 qb_vsnprintf_deserialize(char *string, size_t str_len, const char *buf)
@@ -770,7 +772,9 @@ reprocess:
 		case '7': /* field width, ignore */
 		case '8': /* field width, ignore */
 		case '9': /* field width, ignore */
-			fmt[fmt_pos++] = *format;
+			if (fmt_pos < MINI_FORMAT_FLAGS_MAX) {
+				fmt[fmt_pos++] = *format;
+			}
 			format++;
 			goto reprocess;
 
@@ -778,9 +782,14 @@ reprocess:
 			int arg_int;
 			memcpy(&arg_int, &buf[data_pos], sizeof(int));
 			data_pos += sizeof(int);
-			fmt_pos += snprintf(&fmt[fmt_pos],
-					   MINI_FORMAT_STR_LEN - fmt_pos,
-					   "%d", arg_int);
+			if (arg_int < 0 && fmt[fmt_pos - 1] == '.') {
+				/* a negative precision is taken as if it were omitted */
+				fmt_pos--;
+			} else {
+				fmt_pos += snprintf(&fmt[fmt_pos],
+						   MINI_FORMAT_STR_LEN - fmt_pos,
+						   "%d", arg_int);
+			}
 			format++;
 			goto reprocess;
 		}
